@@ -112,6 +112,7 @@ class FakeSession(object):
 
     def submit(self, fn, *a, **kw):
         self.submitted.append((fn, a, kw))
+        return (fn, a, kw)          # a live session returns a task handle (None means: shut down, nothing will run)
 
 
 class SyncThread(object):
@@ -424,7 +425,11 @@ class Harness(object):
                 h.prepare_delivered.append(tok)
             try:
                 if inner is not None:
-                    inner(resp)
+                    try:
+                        inner(resp)
+                    except Exception as e:      # process_msg would swallow it ("Callback handler errored"): never silently
+                        h.problems.append('the driver-side callback of request %r raised %r' % (tok, e))
+                        raise
                 if h.tokens.get(tok, {}).get('kind') == 'wfr':
                     # ResponseWaiter.got_response: `with self.connection.lock: self.connection.in_flight -= 1`
                     h.emit('ReturnConn')
@@ -714,7 +719,7 @@ class Harness(object):
         self._arm_borrow(r)
         self.next_token, self.next_nested_cb, self.next_nested_send = r, a.get('in_cb'), a.get('after_check')
         self.next_nested_push = a.get('at_push')
-        inner = lambda resp: None
+        inner = lambda *args: None        # _query binds (connection, pool) in front of the response for a caller-supplied cb
         self.in_query = True
         try:
             rid = rf._query(self.host, cb=inner)
